@@ -22,3 +22,7 @@ $(BIN)/num.%: $(HO)/num_main.o $(NUM_OBJS) $(B)/lib/%/libmasa.a
 	$(CXX) -o $@ $(HO)/num_main.o $(NUM_OBJS) $(B)/lib/$*/libmasa.a -lrapidcheck -lquadmath
 
 .SECONDARY:
+
+$(BIN)/c20.%: $(HO)/c20_main.o $(NUM_OBJS) $(B)/lib/%/libmasa.a
+	@mkdir -p $(BIN)
+	$(CXX) -o $@ $(HO)/c20_main.o $(NUM_OBJS) $(B)/lib/$*/libmasa.a -lrapidcheck -lquadmath
